@@ -96,6 +96,12 @@ def impl_init():
         l3 = (SIP(flags="MF") if len(raw) % 7 == 0 else SIP()) if len(raw) % 2 else SIP6()
         seg = l3 / (STCP(sport=40000, dport=port, flags=fl) if len(raw) % 4 < 2 else STCP(sport=port, dport=40000, flags=fl)) / SRaw(raw)
         pkt = l3.__class__(bytes(seg))
+        if len(raw) % 2 and len(raw) % 5 == 0:
+            # as captured on a host with segmentation offload: the IPv4 total-length field is 0 and the frame simply ends where the data ends
+            from scapy.layers.l2 import Ether
+            b = bytearray(bytes(seg))
+            b[2:4] = b"\0\0"
+            pkt = Ether(bytes(Ether(src="02:00:00:00:00:01", dst="02:00:00:00:00:02", type=0x800)) + bytes(b)) if len(raw) % 3 else SIP(bytes(b))
         out = []
         for name, f in (("HTTP.from_packet", lambda: HTTP.from_packet(pkt)), ("HTTPPacketSignature.from_packet", lambda: HTTPPacketSignature.from_packet(parse_packet(pkt)))):
             try:
